@@ -190,10 +190,11 @@ class SymInt:
     comparisons without the solver and bounds the width (Python ints never wrap: a result
     that may need more than 127 bits aborts the path as Unsupported)."""
 
-    __slots__ = ("e", "lo", "hi")
+    __slots__ = ("e", "lo", "hi", "mulof")
 
     def __init__(self, e, bits=None, lo=None, hi=None):
         self.e = e
+        self.mulof = None  # (base SymInt, k): this value is base * k exactly (algebraic provenance)
         if lo is None:
             lo, hi = _b2r(bits)
         if lo < -(1 << (W - 2)) or hi >= (1 << (W - 2)):
@@ -207,6 +208,8 @@ class SymInt:
 
     # ---- arithmetic ------------------------------------------------------------
     def __add__(self, o):
+        if type(o) is int and o == 0:
+            return self
         try:
             oe, ol, oh = lift3(o)
         except TypeError:
@@ -239,7 +242,12 @@ class SymInt:
         except TypeError:
             return NotImplemented
         ps = (self.lo * ol, self.lo * oh, self.hi * ol, self.hi * oh)
-        return mk(self.e * oe, min(ps), max(ps))
+        r = mk(self.e * oe, min(ps), max(ps))
+        if type(o) is int and type(r) is SymInt and o > 0:
+            if o == 1:
+                return self
+            r.mulof = (self, o) if self.mulof is None else (self.mulof[0], self.mulof[1] * o)
+        return r
 
     __rmul__ = __mul__
 
@@ -289,9 +297,34 @@ class SymInt:
     def __rlshift__(self, o): raise Unsupported("symbolic shift amount")
     def __rrshift__(self, o): raise Unsupported("symbolic shift amount")
 
+    def _qr(self, d):
+        """floor quotient / remainder by a positive constant as fresh variables tied by
+        x == q*d + r, 0 <= r < d (a constant multiplier is far cheaper to bit-blast than a divider)"""
+        if self.mulof is not None:
+            base, k = self.mulof
+            if k % d == 0:
+                return base * (k // d), 0
+            if d % k == 0:
+                q, r = divmod(base, d // k)
+                return q, r * k
+        c = ctx()
+        cache = c.notes.setdefault("symint_qr", {})
+        key = (self.e.get_id(), d)
+        if key not in cache:
+            ql, qh = self.lo // d, self.hi // d
+            q, _ = sym_var(c.name("q"), ql, qh) if ql != qh else (ql, None)
+            r, _ = sym_var(c.name("r"), 0, d - 1) if d > 1 else (0, None)
+            qe = lift3(q)[0]
+            re_ = lift3(r)[0]
+            c.add(self.e == qe * bvval(d) + re_)
+            cache[key] = (q, r, self.e)
+        return cache[key][0], cache[key][1]
+
     def __floordiv__(self, o):
         if type(o) is int and o > 0:
-            return mk(floor_div_bv(self.e, self.bits, o), self.lo // o, self.hi // o)
+            if o == 1:
+                return self
+            return self._qr(o)[0]
         if type(o) is int and o < 0:
             return (-self).__floordiv__(-o)
         if type(o) is int:
@@ -303,8 +336,7 @@ class SymInt:
             ql, qh = self.lo // o, self.hi // o
             if ql == qh:
                 return mk(self.e - bvval(ql * o), self.lo - ql * o, self.hi - ql * o)
-            q = floor_div_bv(self.e, self.bits, o)
-            return mk(self.e - q * bvval(o), 0, o - 1)
+            return self._qr(o)[1]
         raise Unsupported("modulo by a symbolic or non-positive value")
 
     def __divmod__(self, o):
@@ -466,9 +498,8 @@ def byte_term(b):
 
 def int_from_bytes(items, byteorder="big", signed=False):
     items = list(items)
-    for b in items:
-        if type(b) is Blob:
-            raise Unsupported("integer from opaque payload bytes")
+    if any(type(b) is Blob for b in items):
+        items = SymBytes(items).expanded()
     n = _len(items)
     if n == 0:
         return 0
@@ -649,6 +680,21 @@ class Blob:
     def is_whole(self):
         return self.root is self
 
+    def expand(self):
+        """the payload's bytes as symbolic bytes (content = uninterpreted array per payload,
+        indexed by offset), possible only for a concrete length"""
+        n = self.length
+        if type(n) is not int:
+            c = ctx()
+            if c.feasible(n.e > 64):
+                raise Unsupported("individual bytes of a long symbolic-length opaque payload")
+            n = c.concretise(n.e, limit=70)
+        if n > 64:
+            raise Unsupported("individual bytes of a long opaque payload")
+        arr = z3.Array(f"payload_{self.root.id}", z3.BitVecSort(W), z3.BitVecSort(8))
+        off = lift3(self.off)[0]
+        return [byte_of(z3.Select(arr, off + bvval(i))) for i in _range(n)]
+
     def __repr__(self):
         return f"<Blob {self.name or self.id} {self.kind}>"
 
@@ -709,15 +755,24 @@ class SymBytes:
             return n
         raise Unsupported("builtin len() of symbolic-length bytes reached C level")
 
-    def __iter__(self):
-        for i in self.items:
+    def expanded(self):
+        """items with every opaque payload replaced by its (symbolic) bytes"""
+        if not self.has_blob():
+            return self.items
+        out = []
+        for i in self._nz():
             if type(i) is Blob:
-                raise Unsupported("iterating over opaque payload bytes")
-        return iter(list(self.items))
+                out.extend(i.expand())
+            else:
+                out.append(i)
+        return out
+
+    def __iter__(self):
+        return iter(list(self.expanded()))
 
     def __getitem__(self, k):
         if self.has_blob():
-            raise Unsupported("indexing opaque payload bytes")
+            return SymBytes(self.expanded()).__getitem__(k)
         if type(k) is slice:
             return _norm(SymBytes(self.items[k]))
         if type(k) is SymInt:
@@ -787,12 +842,28 @@ def _norm(sb: SymBytes):
     return sb.concrete() if sb.is_concrete() else sb
 
 
+def _expand_concrete(items):
+    out = []
+    for i in items:
+        if type(i) is Blob and type(i.length) is int and i.length <= 64:
+            out.extend(i.expand())
+        else:
+            out.append(i)
+    return out
+
+
+def _same_structure(a, b):
+    return _len(a) == _len(b) and all((type(x) is Blob) == (type(y) is Blob) for x, y in zip(a, b))
+
+
 def seq_equal(a, b):
     """Equality of two item sequences -> bool | SymBool.  Blobs compare by identity of
-    (root, offset, length); distinct roots by the uninterpreted content equality when the
-    whole sequences are single blobs, otherwise Unsupported."""
-    if _len(a) != _len(b):
-        # different structure: only bytes vs bytes of different count is decidable here
+    (root, offset, length); distinct roots through an uninterpreted content equality."""
+    if not _same_structure(a, b):
+        a2, b2 = _expand_concrete(a), _expand_concrete(b)
+        if _same_structure(a2, b2):
+            a, b = a2, b2
+    if _len(a) != _len(b) or not _same_structure(a, b):
         if not any(type(i) is Blob for i in a) and not any(type(i) is Blob for i in b):
             return False
         la = SymBytes(a).sym_len()
@@ -801,10 +872,13 @@ def seq_equal(a, b):
         if type(r) is bool:
             if not r:
                 return False
-            raise Unsupported("bytes compare: different segment structure")
-        if not ctx().feasible(r.e):
+        elif not ctx().branch(r.e):
             return False
-        raise Unsupported("bytes compare: different segment structure")
+        # same total length, different segmentation: compare byte-wise (small payloads only)
+        a3, b3 = SymBytes(a).expanded(), SymBytes(b).expanded()
+        if _len(a3) != _len(b3):
+            raise Unsupported("bytes compare: different segment structure")
+        return seq_equal(a3, b3)
     conj = []
     for x, y in zip(a, b):
         tx, ty = type(x), type(y)
@@ -822,8 +896,6 @@ def seq_equal(a, b):
                 r = blob_content_eq(x, y)
                 if type(r) is SymBool:
                     conj.append(r.e)
-        elif tx is Blob or ty is Blob:
-            raise Unsupported("bytes compare: payload vs literal byte")
         else:
             if tx is int and ty is int:
                 if x != y:
